@@ -24,10 +24,13 @@ prop(
     legs=[
         dict(name="probes", crate="l1rec", sub="c04", shards={Q: 16, T: 16}, budget={Q: 2, T: 40}, timeout=2400),
         dict(name="probes-release", crate="l1rec", sub="c04", profile="relverif", tiers=(T,), shards={T: 16}, budget={T: 10}, timeout=2400),
+        # whole-stack confirmation: hostile frames injected through hook H3 into an honest server's 1-RTT packets,
+        # processed by the client's real qconnection dispatch (space.rs); error kind + process-wide alloc/CPU budget
+        dict(name="l2-inject", crate="l2", sub="c04", shards={Q: 4, T: 4}, timeout=900),
     ],
     floors={
-        Q: {"probes": 1500, "distinct": 1000, "ramps_fitted": 70, "outcome.error": 600, "outcome.accepted": 600, "sets.clauses": 60},
-        T: {"probes": 15000, "distinct": 6000, "ramps_fitted": 500, "outcome.error": 5000, "outcome.accepted": 5000, "sets.clauses": 60},
+        Q: {"probes_delivered": 12, "probes_with_prescribed_error": 10, "probes": 1500, "distinct": 1000, "ramps_fitted": 70, "outcome.error": 600, "outcome.accepted": 600, "sets.clauses": 60},
+        T: {"probes_delivered": 12, "probes_with_prescribed_error": 10, "probes": 15000, "distinct": 6000, "ramps_fitted": 500, "outcome.error": 5000, "outcome.accepted": 5000, "sets.clauses": 60},
     },
     assumptions=[
         "the victim is a server with one path; the hostile peer owns valid keys (frames are syntactically valid and decrypt)",
